@@ -706,12 +706,14 @@ theorem model_holds (i : Input) : Holds i (run i) = true := by
     cases pass with
     | false =>
       have hno := (not_congr hiff).1 (by simp)
-      refine ⟨by simp, by simp, by simp, by simp, ?_, hlog, hnodup, hsub, hpre, by simp, by cases s.level <;> simp⟩
-      simp only [Bool.false_eq_true, if_false, Bool.or_eq_true, Bool.not_eq_true', beq_iff_eq, reduceCtorEq, or_false]
-      apply Bool.eq_false_iff.2
-      intro hc
-      simp only [Bool.and_eq_true, List.all_eq_true, List.any_eq_true] at hc
-      exact hno ⟨hc.1.1, fun n hn => hc.1.2 n hn, hc.2⟩
+      refine ⟨by simp, by simp, by simp, by simp, ?_, by simp, hlog, hnodup, hsub, hpre, by simp, ?_⟩
+      · simp only [Bool.false_and, Bool.false_eq_true, if_false, Bool.or_eq_true, Bool.not_eq_true', beq_iff_eq,
+          reduceCtorEq, or_false]
+        refine .inl (Bool.eq_false_iff.2 ?_)
+        intro hc
+        simp only [Bool.and_eq_true, List.all_eq_true, List.any_eq_true] at hc
+        exact hno ⟨hc.1.1.1, fun n hn => hc.1.1.2 n hn, hc.1.2⟩
+      · cases hid : i.identityOk <;> cases hlg : s.logged <;> simp
     | true =>
       obtain ⟨h1, h2, h3⟩ := hiff.1 rfl
       have h1' : (s.trustStores.all fun e => (cut e).isSome) = true := List.all_eq_true.2 h1
@@ -719,12 +721,17 @@ theorem model_holds (i : Input) : Holds i (run i) = true := by
         List.all_eq_true.2 h2
       have h3' : ((wantedNames (requiredType i.scheme) s.trustStores).any (confers (lookup i.world) (requiredType i.scheme) i.chain)) = true :=
         List.any_eq_true.2 h3
-      refine ⟨by simp, by simp [h3'], by simp [h2'], by simp [h1'], by simp, hlog, hnodup, hsub, hpre, ?_, by simp⟩
-      simp only [if_true, bne_self_eq_false, Bool.false_or]
-      rw [List.all_eq_true]
-      intro n hn
-      have := hall rfl n hn
-      exact List.contains_iff_mem.2 (List.mem_map.2 ⟨_, this, rfl⟩)
+      cases hid : i.identityOk with
+      | false =>
+        refine ⟨by simp, by simp, by simp, by simp, by simp, by simp, hlog, hnodup, hsub, hpre, by simp, ?_⟩
+        cases hlg : s.logged <;> simp
+      | true =>
+        refine ⟨by simp, by simp [h3'], by simp [h2'], by simp [h1'], by simp, by simp, hlog, hnodup, hsub, hpre, ?_, by simp⟩
+        simp only [and_self, if_true, bne_self_eq_false, Bool.false_or]
+        rw [List.all_eq_true]
+        intro n hn
+        have := hall rfl n hn
+        exact List.contains_iff_mem.2 (List.mem_map.2 ⟨_, this, rfl⟩)
 
 /-! ### the readable theorems (DESIGN.md section 5, C03)
 
@@ -893,19 +900,38 @@ theorem run_pass_sound (i : Input) (h : (run i).result = .pass) :
     obtain ⟨st, hst, a, b, d, e⟩ := lookup_some _ _ _ _ h2
     refine ⟨s, rfl, (applicable_sound _ _ _ happ).1, ⟨c, hc, st, hst, a, d, by rw [e]; exact h3, by rw [a, b]; exact h1⟩, h4⟩
 
-/-- **run_accepted_only_if**: the signature is accepted only if authenticity passed or the
-applicable statement's level merely logs authenticity (audit) -/
+/-- **run_accepted_only_if**: the signature is accepted only if the authenticity result passed or
+the applicable statement merely logs authenticity (level audit, or an override) -/
 theorem run_accepted_only_if (i : Input) (h : (run i).accepted = true) :
-    (run i).result = .pass ∨ ∃ s, applicable i.statements i.repo = some s ∧ s.level = .audit := by
+    (run i).result = .pass ∨ ∃ s, applicable i.statements i.repo = some s ∧ s.logged = true := by
   unfold run at h ⊢
   cases happ : applicable i.statements i.repo with
   | none => simp [happ] at h
   | some s =>
     simp only [happ] at h ⊢
-    cases hb : (authenticity (lookup i.world) i.scheme i.chain s.trustStores).1
-    · simp only [hb, Bool.false_or, beq_iff_eq] at h
-      exact .inr ⟨s, rfl, h⟩
-    · simp
+    cases hlg : s.logged
+    · simp only [hlg, Bool.or_false, Bool.and_eq_true] at h
+      simp [h.1, h.2]
+    · exact .inr ⟨s, rfl, hlg⟩
+
+/-- **run_pass_needs_both**: the authenticity result passes exactly when the trust store check
+passes AND the identity verdict is good: a good identity verdict (native, or a verification
+plugin answering success) never repairs a trust store failure, whatever the action -/
+theorem run_pass_iff (i : Input) :
+    (run i).result = .pass ↔ ∃ s, applicable i.statements i.repo = some s ∧
+      (authenticity (lookup i.world) i.scheme i.chain s.trustStores).1 = true ∧ i.identityOk = true := by
+  unfold run
+  cases happ : applicable i.statements i.repo with
+  | none => simp
+  | some s =>
+    cases hb : (authenticity (lookup i.world) i.scheme i.chain s.trustStores).1 <;>
+      cases hid : i.identityOk <;> simp [hb, hid]
+
+/-- the identity verdict, the plugin and the action never change which stores are consulted -/
+theorem run_calls_independent_of_identity (i : Input) (b : Bool) (p : String) :
+    (run { i with identityOk := b, plugin := p }).calls = (run i).calls := by
+  unfold run
+  cases happ : applicable i.statements i.repo <;> simp [happ]
 
 /-- **run_unlisted_irrelevant**: changing the world anywhere but at the stores `(required type, n)`
 with `type:n` listed by the applicable statement - that is: in stores of another type, in stores
@@ -923,10 +949,10 @@ theorem run_unlisted_irrelevant (i : Input) (world' : List Store) (s : Stmt)
 list and level behave alike, whatever their other statements list -/
 theorem run_other_statements_irrelevant (i : Input) (stmts' : List Stmt) (s s' : Stmt)
     (happ : applicable i.statements i.repo = some s) (happ' : applicable stmts' i.repo = some s')
-    (hl : s'.trustStores = s.trustStores) (hv : s'.level = s.level) :
+    (hl : s'.trustStores = s.trustStores) (hv : s'.level = s.level) (ha : s'.authLog = s.authLog) :
     run { i with statements := stmts' } = run i := by
   unfold run
-  simp only [happ, happ', hl, hv]
+  simp only [happ, happ', hl, Stmt.logged, hv, ha]
 
 /-- **run_history_irrelevant**: the prediction for a verification does not depend on what the
 same verifier instance verified before (nor on the annotations): the model is stateless, and
@@ -937,9 +963,10 @@ theorem run_history_irrelevant (i : Input) (h : List String) (b f k : String) :
 
 /-- hence any two verifications that differ only in their history are predicted alike -/
 theorem run_eq_of_same_call (i j : Input) (hs : i.scheme = j.scheme) (hc : i.chain = j.chain)
-    (hst : i.statements = j.statements) (hr : i.repo = j.repo) (hw : i.world = j.world) :
+    (hst : i.statements = j.statements) (hr : i.repo = j.repo) (hw : i.world = j.world)
+    (hi : i.identityOk = j.identityOk) :
     run i = run j := by
-  unfold run; rw [hs, hc, hst, hr, hw]
+  unfold run; rw [hs, hc, hst, hr, hw, hi]
 
 /-! ### non-vacuity -/
 
@@ -954,9 +981,9 @@ def exWorld : List Store :=
 
 def exInput (scheme : Scheme) (l : List String) : Input :=
   { scheme := scheme, chain := [0, 1, 2], repo := "reg.example/a".toList, world := exWorld,
-    statements := [ ⟨["reg.example/a".toList], l.map String.toList, .strict⟩,
-                    ⟨["*".toList], ["ca:alpha".toList, "signingAuthority:alpha".toList], .strict⟩ ],
-    backend := "mem", format := "jws", kind := "oci", history := [] }
+    statements := [ ⟨["reg.example/a".toList], l.map String.toList, .strict, false⟩,
+                    ⟨["*".toList], ["ca:alpha".toList, "signingAuthority:alpha".toList], .strict, false⟩ ],
+    identityOk := true, plugin := "none", backend := "mem", format := "jws", kind := "oci", history := [] }
 
 /-- trusted: the root is in the listed ca store -/
 example : run (exInput .x509 ["ca:gamma", "tsa:alpha", "ca:alpha", "ca:gamma"]) =
@@ -987,6 +1014,19 @@ example : Holds (exInput .x509 ["ca:beta", "ca:alpha"])
 /-- and acceptance without authenticity under an enforcing level -/
 example : Holds (exInput .x509 ["ca:gamma"])
     { result := .fail, calls := [⟨"ca".toList, "gamma".toList⟩], accepted := true } = false := by decide
+
+/-- a plugin's good identity verdict under a logging statement does not repair a trust store failure:
+the result stays `fail` (accepted, because only logged), and `Holds` refuses a `pass` there -/
+example : run { exInput .x509 ["tsa:alpha", "ca:gamma"] with
+      statements := [⟨["reg.example/a".toList], ["tsa:alpha".toList, "ca:gamma".toList], .permissive, true⟩],
+      plugin := "identity-success" } =
+    { result := .fail, calls := [⟨"ca".toList, "gamma".toList⟩], accepted := true } := by decide
+example : Holds { exInput .x509 ["tsa:alpha", "ca:gamma"] with
+      statements := [⟨["reg.example/a".toList], ["tsa:alpha".toList, "ca:gamma".toList], .permissive, true⟩],
+      plugin := "identity-success" }
+    { result := .pass, calls := [⟨"ca".toList, "gamma".toList⟩], accepted := true } = false := by decide
+/-- a value whose name part is a path names no store: nothing it could resolve to counts -/
+example : (run (exInput .x509 ["ca:../tsa/alpha", "ca:alpha"])).result = .fail := by decide
 
 end examples
 
